@@ -403,6 +403,13 @@ pub fn oracle(case: &Case, res: &McResult) -> Outcome {
             // limited listener: order only — the streams handed to accept calls, taken in call order, follow the
             // arrival order of the (non-duplicate) requests
             labels.insert("limited_listener");
+            // whatever the limit does to the requests, a waiting accept call is never failed by it: it waits (the
+            // socket lives to the end of the run)
+            for &k in &calls {
+                if let CallOut::Err(t, e) = &res.accs[k].out {
+                    viol!("accept-error", "listener {l} (connection limit {}): accept call #{k} (issued at t={} us) failed at t={t} us: {e}", mc.socks[l].max_live, res.accs[k].call_at_us);
+                }
+            }
             let firsts: Vec<&Arrival> = arrivals.iter().filter(|a| !a.dup).collect();
             let oks: Vec<usize> = calls.iter().copied().filter(|k| matches!(res.accs[*k].out, CallOut::Ok(_))).collect();
             // abandoned calls never consume a request, so the j-th Ok call (in call order) holds the j-th request —
